@@ -211,7 +211,7 @@ func runC11(c *core.Ctx, idx int) {
 			}
 		}
 		// bolt path, sampled
-		if special && (si%8 == 0 || idx >= nChunks) {
+		if (special && (si%8 == 0 || idx >= nChunks)) || s == "" || (!special && si%50 == 0) {
 			c11Bolt(c, db, st, s, cands)
 		}
 		if c.WantSample() && special && len(s) >= 3 {
@@ -248,6 +248,10 @@ func c11Bolt(c *core.Ctx, db *boltz.DbImpl, st *schema.St, s string, cands []str
 				return err
 			}
 		}
+		// one more row whose field is null (not the empty string)
+		if err := st.Store.Create(ctx, &schema.Ent{Id: "rnull", Typ: "strs", V: map[string]any{"f": nil, "tags": []string{"zz"}}}); err != nil {
+			return err
+		}
 		for i, cand := range cands {
 			tags := []string{"zz"}
 			if cand != "" {
@@ -272,6 +276,9 @@ func c11Bolt(c *core.Ctx, db *boltz.DbImpl, st *schema.St, s string, cands []str
 				if pred(i, cand) {
 					want = append(want, fmt.Sprintf("r%02d", i))
 				}
+			}
+			if name == "!=" {
+				want = append(want, "rnull") // a null field differs from every string literal
 			}
 			if err != nil || fmt.Sprint(ids) != fmt.Sprint(want) {
 				c.Violationf("C11 bolt store: literal denotes another string ("+name+"): "+classifyEsc(s, ""), map[string]any{"s": s, "rows": fmt.Sprintf("%q", cands), "query": text},
